@@ -22,7 +22,11 @@ def sig_of(rej, scn):
         what = re.sub(r":mods=\d", "", what)
     # the navigation keys of the keypad form one class
     what = re.sub(r"^key:KP_(LEFT|RIGHT|UP|DOWN|HOME|END|PAGE_UP|PAGE_DOWN|INSERT|DELETE):", "key:KP_nav:", what)
+    # the keypad digits and operators as a host without the kitty protocol delivers them (no text) form one class
+    what = re.sub(r"^key:KP_(\d|DECIMAL|DIVIDE|MULTIPLY|SUBTRACT|ADD|EQUAL|SEPARATOR):(.*):notext", r"key:KP_char:\2:notext", what)
     if why == "nothing-written":         # a dropped key: the chord and the event type are in the replay file
+        what = re.sub(r":mods=\d", "", what)
+    if why in ("control-code-written-for-key-without-one", "arrives-as-another-key"):   # Ctrl + a key beyond ASCII: every modifier set with Ctrl alike
         what = re.sub(r":mods=\d", "", what)
     what = re.sub(r":button=\d+", "", what)
     return "C13:%s:%s" % (why, what)
@@ -62,6 +66,33 @@ def keypad_enter_dropped(evs):
 def keypad_nav_other_key(evs):
     return _pair(evs, lambda e: e.get("ev") == "key" and e.get("name") == "KP_LEFT" and e.get("etype") != "release" and e.get("gotname") == "LEFT" and e.get("n") == 1,
                  lambda e: e.update(gotname="RIGHT"))
+
+
+def _kp_char_notext(e):
+    return (e.get("ev") == "key" and re.match(r"KP_(\d|DECIMAL|DIVIDE|MULTIPLY|SUBTRACT|ADD|EQUAL|SEPARATOR)$", e.get("name", "")) and e.get("mods") == 0
+            and e.get("etype") != "release" and not e.get("text") and e.get("n") == 1)
+
+
+def keypad_char_dropped(evs):
+    return _pair(evs, lambda e: _kp_char_notext(e) and not e.get("deckpam") and len(e.get("bytes", [])) == 1,
+                 lambda e: e.update(bytes=[], n=0))
+
+
+def keypad_code_other_key(evs):
+    return _pair(evs, lambda e: _kp_char_notext(e) and e.get("deckpam") and len(e.get("bytes", [])) == 3 and e.get("gotname") == e.get("name"),
+                 lambda e: e.update(gotname="KP_BEGIN"))
+
+
+def ctrl_shift_loses_ctrl(evs):
+    return _pair(evs, lambda e: e.get("ev") == "key" and e.get("name") == "" and e.get("mods") == 5 and e.get("shifted") == 95
+                 and e.get("etype") != "release" and e.get("n") == 1 and 95 in e.get("ctrlm", []),
+                 lambda e: e.update(bytes=[e["code"]], ctrlm=[]))
+
+
+def ctrl_nonascii_as_backspace(evs):
+    return _pair(evs, lambda e: e.get("ev") == "key" and e.get("name") == "" and e.get("mods") == 4 and e.get("code", 0) > 127
+                 and e.get("etype") != "release" and e.get("n") == 1 and e.get("samekey"),
+                 lambda e: e.update(bytes=[127], samekey=False, gotname="BACKSPACE"))
 
 
 def altscroll_other_mode(evs):
@@ -107,6 +138,11 @@ def main(c):
         "keypad keys: digits and operators (with text, i.e. Num Lock on) arrive as their character, or as SS3 j-y/X under DECKPAM; Enter as CR, or SS3 M under DECKPAM; "
         "the navigation keys of the keypad arrive as the cursor/editing key of the same name (either form), Begin as CSI E",
         "Ctrl with a key that shares its control code with other keys (NUL: Space/2/@, FS: 4/\\, GS: 5/], RS: 6/^, US: 7///_) must arrive as Ctrl + some key of that class",
+        "Ctrl+Shift with a key whose shifted character is @, ^ or _ (US layout: 2, 6, -) is Ctrl + that character and must arrive as Ctrl + some key of its class",
+        "Ctrl with a key beyond ASCII is not expressible (its modifiers may be lost) but the key may not be replaced: no control code (C0, DEL, C1) is written for it, "
+        "and when what is written decodes to one key event it is the same key with some of the chord's modifiers",
+        "keypad digits and operators WITHOUT text (what Vaxis's decoder delivers from the SS3 codes of a host without the kitty protocol) are demanded like those with text; "
+        "a keypad key written in a form its mode allows must decode to one key event: the keypad key for the SS3 code, the character as text otherwise",
     ]
     if not c.replay:
         c.model_check(specs, "MC_Forward.tla", "MC_Forward.cfg")
@@ -120,6 +156,10 @@ def main(c):
             ("key: bytes written for a release", release_written),
             ("key: keypad Enter dropped", keypad_enter_dropped),
             ("key: keypad Left decoded as Right", keypad_nav_other_key),
+            ("key: keypad digit/operator without text dropped", keypad_char_dropped),
+            ("key: keypad SS3 code decoded as another keypad key", keypad_code_other_key),
+            ("key: Ctrl+Shift+- arrives without Ctrl", ctrl_shift_loses_ctrl),
+            ("key: Ctrl + non-ASCII key written as DEL", ctrl_nonascii_as_backspace),
             ("mouse: alternate scroll in the other cursor-key form", altscroll_other_mode),
             ("paste: bracket missing", selfmut.paste_unbracketed),
             ("mouse: decoded column off by one", selfmut.mouse_off_by_one),
@@ -135,7 +175,7 @@ def main(c):
     c.confirm(drv, "c13", specs, "Forward_Trace.tla", "Forward_Trace.cfg", cands, sig_of)
     return c.finish(
         rule="scenario = child mode configuration (DECCKM x DECKPAM for keys; 1000 x 1002 x 1003 x 1006 for mouse; 2004 for paste) x input list "
-             "(55 special keys, 29 of them on the keypad, and 70+ printable keys x all 8 Shift/Alt/Ctrl subsets; keys whose text is not their key code "
+             "(55 special keys, 29 of them on the keypad, and 70+ printable keys x all 8 Shift/Alt/Ctrl subsets; the 17 keypad digits and operators also without text (legacy host); keys whose text is not their key code "
              "(clusters, AltGr, Caps Lock, composed) typed, repeated and pasted; press/repeat/release/paste event types; "
              "10 buttons x press/release/motion x positions up to column 319 / row 259; wheel steps under alternate scroll x DECCKM); "
              "distinct = distinct descriptor")
